@@ -270,6 +270,9 @@ def run_case(spec, rec):
             model = model + [_mtriple(it) for it in items]
         elif name in ("mul", "rmul"):
             k = op[1]
+            if n * k > 400:
+                rec.add("skipped_growth_cap")      # repeated x3 grows geometrically; histories stay small by construction
+                continue
             new = lib((lambda: real * k) if name == "mul" else (lambda: k * real), what=name)
             check_invariant(real, model, name + "(operand)", qsim)
             real = new
